@@ -351,10 +351,9 @@ func (v *Vue) buildStyleString(pairs []objectPair) string {
 		}
 
 		key := pair.key
+		// The value is evaluated already: a quote in it belongs to it
+		// (font-family: 'Fira Code', monospace; content: "x")
 		value := strings.TrimSpace(helpers.Sprint(pair.val))
-
-		// Remove quotes if present
-		value = strings.Trim(value, "\"'")
 
 		if value != "" {
 			// Convert camelCase to kebab-case if the key doesn't contain hyphens
